@@ -95,14 +95,15 @@ pub fn c03_ledger_dec_recv_window() {
 pub fn c02_ledger_send_data() {
     let (mut fc, w, a) = any_fc();
     let sz = any_u31();
-    // caller contract (Prioritize::pop_frame): the frame fits the window
-    kani::assume(w as i64 >= sz as i64);
+    // caller contract (Prioritize::pop_frame, Recv::recv_data): the frame fits the window;
+    // zero-length frames are exempt from flow control and legal on a zero/negative window
+    kani::assume(sz == 0 || w as i64 >= sz as i64);
     let r = fc.send_data(sz);
     match r {
         Ok(()) => {
             assert!(fc.window_size.0 as i64 == w as i64 - sz as i64, "send_data: window != old - sz");
             assert!(fc.available.0 as i64 == a as i64 - sz as i64, "send_data: available != old - sz");
-            assert!(fc.window_size.0 >= 0, "send_data drove the window negative");
+            assert!(fc.window_size.0 >= 0 || sz == 0, "send_data drove the window negative");
         }
         Err(_) => {
             // only an `available` underflow below i32::MIN can fail
@@ -110,7 +111,7 @@ pub fn c02_ledger_send_data() {
         }
     }
     kani::cover!(r.is_ok() && sz > 0, "sent");
-    kani::cover!(r.is_ok() && sz == 0, "zero");
+    kani::cover!(r.is_ok() && sz == 0 && w < 0, "zero_on_negative_window");
     kani::cover!(true, "end");
 }
 
